@@ -940,7 +940,7 @@ func (w *vWorld) op(ws []string) (string, bool) {
 	if len(ws) > 1 {
 		s = w.sess[ws[1]]
 	}
-	if s == nil && ws[0] != "unload" && ws[0] != "timer" && ws[0] != "restart" {
+	if s == nil && ws[0] != "unload" && ws[0] != "timer" && ws[0] != "restart" && ws[0] != "userstate" {
 		return "", false
 	}
 	if ws[0] != "restart" {
@@ -1121,6 +1121,15 @@ func (w *vWorld) op(ws []string) (string, bool) {
 		} else {
 			return "notloaded", true
 		}
+	case "userstate":
+		// userstate U1 susp|ok: what the hub does when an account is suspended or re-activated (hub.go: case status := <-h.userStatus):
+		// the loaded p2p topics of the user and the loaded group topics the user owns become read-only, or writable again
+		uid, ok := w.users[ws[1]]
+		if !ok {
+			return "", false
+		}
+		globals.hub.topicsStateForUser(uid, len(ws) > 2 && ws[2] == "susp")
+		w.pump()
 	case "restart":
 		// crash + restart: the database keeps what it had when the process died; all memory state is lost
 		if w.ad.CrashSnap != nil {
